@@ -37,8 +37,13 @@ def make_cases(ctx: Ctx):
         for _ in range(nsteps):
             m = (2 * npart if D > 0 else 0) + (npart if Dz > 0 else 0)
             draws.append([float(x) for x in r.normal(size=m + 2)])   # two spare numbers: must stay unused
-        cases.append(dict(grid=gs, scheme="", dt=dt, D=D, Dz=Dz, cu=[0] * 7, cv=[0] * 7, particles=parts, nsteps=nsteps,
-                          draws=draws, dx=dx, k=k))
+        case = dict(grid=gs, scheme="", dt=dt, D=D, Dz=Dz, cu=[0] * 7, cv=[0] * 7, particles=parts, nsteps=nsteps,
+                    draws=draws, dx=dx, k=k)
+        if k % 5 == 2:
+            # vertical advection in the same run: the random walk comes on top of the advective displacement
+            case["vertadv"] = True
+            case["w"] = [[float(x) / 8 / dt for x in r.randint(-48, 49, size=npart)] for _ in range(nsteps)]
+        cases.append(case)
     return cases
 
 
@@ -91,7 +96,7 @@ def run(ctx: Ctx):
         npart = len(c["particles"])
         ctx.case("scripted", [c["k"], c["D"], c["Dz"], c["dt"], c["dx"], npart], sample=dict(D=c["D"], Dz=c["Dz"], dt=c["dt"], dx=c["dx"], particles=npart,
                  draws=c["draws"][0][:4]), nontrivial=c["D"] > 0 or c["Dz"] > 0)
-        ctx.count("D>0:" + str(c["D"] > 0)); ctx.count("Dz>0:" + str(c["Dz"] > 0))
+        ctx.count("D>0:" + str(c["D"] > 0)); ctx.count("Dz>0:" + str(c["Dz"] > 0)); ctx.count("vertical advection:" + str(bool(c.get("vertadv"))))
         px = [p[0] for p in c["particles"]]; py = [p[1] for p in c["particles"]]; pz = [p[2] for p in c["particles"]]
         bad = None
         wi = 0
@@ -115,7 +120,8 @@ def run(ctx: Ctx):
                 if c["Dz"] > 0:
                     off = 2 * npart if c["D"] > 0 else 0
                     ez = math.sqrt(2 * c["Dz"] * c["dt"]) * dr[off + k]
-                zexp = abs(pz[k] + ez)
+                zadv = c["w"][n][k] * c["dt"] if c.get("vertadv") else 0.0
+                zexp = abs(pz[k] + ez + zadv)
                 tol = 2e-13
                 if not s["alive"][k]:
                     # the kick carried the particle out of the grid: it was killed and put back (C09), no claim here
